@@ -90,7 +90,7 @@ def rule_reserve(ctx):
                 ctx.violation("%s|Vec.inflight.%s|1" % (fn.path, m), site(fn, bi),
                               "index counter modified with `%s`: reservations must be a single fetch_add and the counter must never decrease" % m)
     ctx.floor("fetch_add on the index counter", n_rmw, 2)
-    ctx.floor("loads of the index counter", n_load, 3)
+    ctx.floor("loads of the index counter", n_load, 1)
     for fn, bi, t in ops.get("fetch_add", []):
         if fn.path not in WRITERS:
             ctx.violation("%s|Vec.inflight.fetch_add|caller" % fn.path, site(fn, bi),
@@ -213,7 +213,9 @@ def rule_init_before_publish(ctx):
             problems = []
             # (a) column default-initialisation loop: a write through UnsafeCell::get of a matcher_cols_raw element
             colw = []
-            for wbi, wt in fn.calls(lambda t: callee(t).endswith("::write") and "ptr" in callee(t)):
+            for wbi, wt in fn.calls(lambda t: callee(t).endswith("::write") or callee(t).endswith("::write_volatile")):
+                if not wt["args"] or any(wbi == s_[0] for s_ in sw):
+                    continue
                 e = fn.expr_of_operand(wt["args"][0])
                 if any(x[0] == "call" and x[1] == "boxcar::Entry::<T>::matcher_cols_raw" for x in walk(e)):
                     colw.append(wbi)
@@ -288,7 +290,36 @@ def rule_read_gated(ctx):
                 ctx.violation(key, site(fn, bi), "get_unchecked reads the entry without the acquire load of its active flag")
             continue
         if fn.b["kind"] != "Closure":
-            ctx.violation(key, site(fn, bi), "Entry::read called outside get_unchecked without being gated on the entry's active flag")
+            # plain control flow: the read must be control dependent on `active.load(..) == true` of the SAME entry
+            # and on the bucket pointer being non-null
+            rentry = peel(fn.expr_of_operand(t["args"][0]))
+            gs = guards_of(fn, bi)
+            flag_ok = null_ok = False
+            other = None
+            for gbi, sb, vals, e in gs:
+                neg = False
+                while e[0] == "un" and e[1] == "Not":
+                    e = e[2]
+                    neg = not neg
+                truth = (vals in ([None], [1])) != neg
+                if e[0] == "call" and isinstance(e[1], str) and e[1].endswith("::load") and classify(fn, e[2][0]) == "Entry.active":
+                    fe = peel(peel(e[2][0])[1])
+                    if truth and fe == rentry:
+                        flag_ok = True
+                    elif truth:
+                        other = fe
+                if e[0] == "call" and isinstance(e[1], str) and e[1].endswith("::is_null") and not truth:
+                    null_ok = True
+                if e[0] == "discr" and any(x[0] == "call" and str(x[1]).endswith("NonNull::<T>::new") for x in walk(e)) and vals == [1]:
+                    null_ok = True
+            if flag_ok and null_ok:
+                ctx.ok(site(fn, bi), "read control dependent on active.load of the same entry being true, behind the null check")
+            elif flag_ok:
+                ctx.violation(key + "|null", site(fn, bi), "entry dereferenced without the `entries.is_null()` check on this path")
+            elif other is not None:
+                ctx.violation(key, site(fn, bi), "flag loaded from a different entry than the one read: %s vs %s" % (show(other), show(rentry)))
+            else:
+                ctx.violation(key, site(fn, bi), "Entry::read called outside get_unchecked without being gated on the entry's active flag")
             continue
         parent = get_fn(facts, "nucleo", fn.b["root"])
         cr = [c for c in closure_creations(parent) if c[3] == fn.path]
